@@ -1,0 +1,21 @@
+//go:build verif
+
+package testutils
+
+import (
+	"time"
+
+	"github.com/vulcand/oxy/v2/internal/holsterv4/clock"
+)
+
+// VerifFreeze freezes the library clock at t (verification harness hook).
+func VerifFreeze(t time.Time) { clock.Freeze(t) }
+
+// VerifAdvance advances the frozen library clock by d.
+func VerifAdvance(d time.Duration) { clock.Advance(d) }
+
+// VerifNow returns the library clock's current time.
+func VerifNow() time.Time { return clock.Now() }
+
+// VerifUnfreeze returns the library clock to real time.
+func VerifUnfreeze() { clock.Unfreeze() }
